@@ -1,7 +1,9 @@
 package hxsyn
 
 import (
+	"encoding/json"
 	"math/rand/v2"
+	"os"
 	"path/filepath"
 	"strings"
 
@@ -118,4 +120,33 @@ func ParseRecover(src string, f func(lang int, file *syntax.File)) {
 		}
 		f(i, file)
 	}
+}
+
+// Regress is one item of a pinned regression corpus (corpus/<id>/regress.jsonl): a shell
+// program (Src) or a JSON document (Doc), visited first on every seed and tier and checked by
+// the same oracles as the generated inputs.
+type Regress struct {
+	Src string `json:"src"`
+	Doc string `json:"doc"`
+	Why string `json:"why"`
+}
+
+func LoadRegress(path string) ([]Regress, error) {
+	data, err := os.ReadFile(path)
+	if err != nil {
+		return nil, err
+	}
+	var out []Regress
+	for _, line := range strings.Split(string(data), "\n") {
+		line = strings.TrimSpace(line)
+		if line == "" || !strings.HasPrefix(line, "{") {
+			continue
+		}
+		var r Regress
+		if err := json.Unmarshal([]byte(line), &r); err != nil {
+			return nil, err
+		}
+		out = append(out, r)
+	}
+	return out, nil
 }
